@@ -103,6 +103,7 @@ def siblings(cfg):
             v = list(c0["c8"])
             v[i] = v[i] * 2 if v[i] else 8
             opts.append(("c8", v))
+        opts.append(("c8", [2 * x for x in c0["c8"]]))      # the whole cost vector rescaled (same schedule, other units)
     out = []
     for k, v in opts:
         c = dict(c0)
@@ -529,7 +530,8 @@ def _pair_sweep(job):
     try:
         for A, B in pairs:
             for ops in ([["create", A], ["adv", 0, 1000000], ["create", B], ["adv", 0, 1000000]],
-                        [["create", A], ["create", B], ["adv", 1, 1000000], ["adv", 0, 1000000]]):
+                        [["create", A], ["create", B], ["adv", 1, 1000000], ["adv", 0, 1000000]],
+                        [["create", A], ["adv", 0, 1000000], ["create", B], ["adv", 0, 1000000], ["create", A], ["adv", 0, 1000000]]):
                 r = replay_ops(ops, g.get)
                 if r is not None:
                     out.append({"ops": ops, "pred": r[0], "detail": r[1], "variant": r[2]})
@@ -558,6 +560,14 @@ def pair_box(tier):
         for p in (1, 2, 3):
             for b in (0, 1, 2):
                 base.append({"cls": "TwoLevel", "period": p, "b": b, "storage": "RAM" if (n + p + b) % 2 else "DISK", "traj": "maximum", "n": n, "passes": 1})
+    # a few larger Revolve-family members (their tables only differ from size ~30 on)
+    for n in (30, 41):
+        base.append({"cls": "HRevolve", "n": n, "s": 2, "d": 2, "c8": [8, 8, 16, 16], "passes": 1})
+        base.append({"cls": "HRevolve", "n": n, "s": 1, "d": 3, "c8": [8, 16, 16, 4], "passes": 1})
+        base.append({"cls": "DiskRevolve", "n": n, "s": 2, "c8": [8, 8, 16, 16], "passes": 1})
+        base.append({"cls": "PeriodicDiskRevolve", "n": n, "s": 2, "c8": [8, 8, 16, 16], "passes": 1})
+        base.append({"cls": "Multistage", "n": n, "ram": 2, "disk": 2, "traj": "maximum", "passes": 1})
+        base.append({"cls": "Mixed", "n": n, "s": 3, "storage": "RAM", "passes": 1})
     pairs = []
     for A in base:
         for _, B in siblings(A):
@@ -614,7 +624,7 @@ def run(prop, args):
     for A, B in pairs:
         if (A["cls"] in SHARE_A or A["cls"] in SHARE_B):
             rep.nontrivial.add("pair:" + C.key(A) + "|" + C.key(B))
-    rep.exhaustive = [{"box": "every ordered pair (A, B) of configs differing in exactly one parameter, n<=%d, units<=3, both orders of use, each pair in a pristine child" % (6 if tier == "quick" else 9),
+    rep.exhaustive = [{"box": "every ordered pair (A, B) of configs differing in exactly one parameter, n<=%d, units<=3, three orders of use (A then B; B before A; A, B, then A again), each in a pristine child" % (6 if tier == "quick" else 9),
                        "cases": npairs, "exhaustive": True}]
     R.run_regress(rep, check_witness)
 
